@@ -12,7 +12,7 @@ from harness.common import REPO
 
 COMBINATORS = {"repeated", "gathered", "seq_alts", "positive_lookahead", "negative_lookahead", "expect_forced"}
 LEAVES = {"name": "name", "keyword": "keyword", "soft_keyword": "softKeyword", "any_token": "anyToken"}
-RAISERS = ("raise_", "check_version", "ensure_real", "ensure_imaginary", "check_fstring_conversion", "literal_eval", "make_syntax_error", "expect_forced")
+RAISERS = ("raise_", "check_version", "ensure_real", "ensure_imaginary", "check_fstring_conversion", "literal_eval", "make_syntax_error", "expect_forced", "concatenate_strings", "expand_help")
 
 
 class Unmodelled(Exception):
